@@ -117,6 +117,8 @@ class Counter:
         self.counts = {}
         self.plan = plan or {}      # kind -> (k, exception instance)
         self.fired = []
+        self.in_backend = 0         # > 0 while a back-end call (minimize / linprog) is on the stack
+        self.fired_in_backend = None
 
     def wrap(self, kind, fn):
         if fn is None or not callable(fn):
@@ -126,6 +128,7 @@ class Counter:
             self.counts[kind] = self.counts.get(kind, 0) + 1
             if kind in self.plan and self.plan[kind][0] == self.counts[kind]:
                 self.fired.append(kind)
+                self.fired_in_backend = self.in_backend > 0
                 raise self.plan[kind][1]
             return fn(*a, **kw)
 
@@ -186,7 +189,11 @@ def faulty_backend(counter, entry_fault=None):
             raise entry_fault
         kw = dict(call.kw)
         if call.kind == "linprog":
-            return scipy.optimize.linprog(**kw)
+            counter.in_backend += 1
+            try:
+                return scipy.optimize.linprog(**kw)
+            finally:
+                counter.in_backend -= 1
         kw["fun"] = counter.wrap("objective", kw.get("fun"))
         kw["jac"] = counter.wrap("gradient", kw.get("jac"))
         kw["hess"] = counter.wrap("hessian", kw.get("hess"))
@@ -197,7 +204,11 @@ def faulty_backend(counter, entry_fault=None):
             cd["jac"] = counter.wrap(f"jacobian{i}", cd.get("jac"))
             cons.append(cd)
         kw["constraints"] = cons if cons else ()
-        return scipy.optimize.minimize(**kw)
+        counter.in_backend += 1
+        try:
+            return scipy.optimize.minimize(**kw)
+        finally:
+            counter.in_backend -= 1
 
     return handler
 
@@ -289,7 +300,11 @@ def check_fault(pname, method, faults, rep=None, want=None, followups=None):
             if rep:
                 rep.skipped["fault-point-not-reached"] += 1
         elif outcome[0] == "returned" and outcome[1] != "failed":
-            if rep:
+            if counter.fired_in_backend is False and kind != "entry":
+                # raised in optyx's OWN code (cache construction, post-solve evaluations), not under SciPy: the call
+                # must return FAILED or propagate - reporting success means optyx swallowed the fault
+                fails.add("fault-outside-back-end-swallowed", method=m, callback=kind, k=k, cls=cname, returned=outcome[1])
+            elif rep:
                 rep.skipped["fault-swallowed-by-back-end"] += 1
         if warnings.showwarning is not show0:
             fails.add("showwarning-not-restored", method=m, callback=kind, k=k, cls=cname, after=outcome)
